@@ -12,6 +12,29 @@ CHECKS = {
              'states (DEFAULT, SET OF multiset, named bits), computed from my own AST. Held on the executions observed; sampling, not proof.',
         note='Trusts my generator/printer/equality (vf/asn), CPython; modules the compiler rejects and NotImplementedError are counted, '
              'known findings are carved out only while their probe reproduces (KNOWN_FINDINGS).'),
+    'C16': dict(
+        category='exploration', design_ref='DESIGN.md 4 C16',
+        technique='runtime monitoring: exception-class oracle over every byte prefix of library-produced encodings',
+        text='Every strict prefix of encodings produced by the real encoder (5 binary codecs, generated modules and values) is fed to the real '
+             'decoder; the monitor classifies the outcome (decode error / value / foreign exception / other library error). Held on the prefixes '
+             'observed (about 10^6 per quick run).',
+        note='Only encodings the library itself decodes and re-encodes identically count as valid encodings; trusts the generator.'),
+    'C15': dict(
+        category='exploration', design_ref='DESIGN.md 4 C15',
+        technique='runtime monitoring: reference-model oracle (independent X.690 TLV reader) for message extent, all header prefixes',
+        text='decode_with_length and decode_length of the real library are compared with the message extent computed by my own TLV reader, for '
+             'messages with multi-octet identifiers and long-form lengths, every prefix length through the header and sampled lengths beyond, '
+             'and four kinds of trailing bytes.',
+        note='Trusts vf/models/x690.py (self-tested on X.690 worked examples at start-up; failure => inconclusive).'),
+    'C08': dict(
+        category='exploration', design_ref='DESIGN.md 4 C08',
+        technique='runtime monitoring: sys.monitoring step-budget monitor aborting the decode, RLIMIT_AS, sentinel re-decode after every hostile input',
+        text='Hostile inputs (mutated valid encodings, tampered lengths/tags/counts, random strings <= 4 KiB) are decoded by the 7 real decoders '
+             'under a logical step budget counted in interpreter line events inside asn1tools; exceeding the budget aborts the call from the '
+             'monitor callback and is a violation; after every input a sentinel valid message is decoded on the same Specification object and '
+             'compared with its earlier result. Bounded-progress restatement of "always terminates"; no wall-clock verdicts.',
+        note='Work done in C (json, ElementTree, int parsing) is not counted; memory bound is RLIMIT_AS 3 GiB; zero-width list element types '
+             'form their own class with a larger per-octet budget (DESIGN C08).'),
 }
 
 NOT_YET = 'check under construction in this revision (DESIGN.md section 4); not claimed yet'
